@@ -284,6 +284,7 @@ struct World<E> {
     now: u64,
     s: [Side<E>; 2],
     bag: [Vec<Dg>; 2], // bag[0]: A->B, bag[1]: B->A
+    arch: [Vec<Dg>; 2], // handshake datagrams ever emitted per direction: the network may deliver a late duplicate
     steps: usize,
     forged: bool,      // a datagram the network invented was fed: the C01 oracles no longer apply
 }
@@ -369,7 +370,7 @@ impl<E: Endpoint> World<E> {
         let t = |v: &Vec<[u8; 4]>| v.iter().map(|x| hex(x)).collect::<Vec<_>>().join(",");
         o.lock().unwrap().case(&format!("{}\t{}\tnew\t{}\t{}", proto, trace, t(&ra), t(&rb)), "ok", "");
         let mk = |rand| Side { ep: Some(E::new(rand)), sub: vec![], del: vec![], nv_sent: vec![], ready: 0, got_answer: false, dead: false };
-        World { proto: proto.into(), v7, trace, now: 0, s: [mk(ra), mk(rb)], bag: [vec![], vec![]], steps: 0, forged: false }
+        World { proto: proto.into(), v7, trace, now: 0, s: [mk(ra), mk(rb)], bag: [vec![], vec![]], arch: [vec![], vec![]], steps: 0, forged: false }
     }
     fn fp(&self, i: usize) -> String { match &self.s[i].ep { Some(e) => e.fp(), None => "Dead".into() } }
     fn online(&self, i: usize) -> bool { state_of(&self.fp(i)) == "Online" }
@@ -524,8 +525,11 @@ impl<E: Endpoint> World<E> {
         }
         if fed.is_some() && matches!(l, Label::Deliver(..)) { self.s[side].got_answer = true; }
         // emitted datagrams go into the bag with their ghosts
-        for d in out.sent {
-            self.bag[side].push(Dg { bytes: d, n_emit: self.s[side].sub.len(), d_emit: self.s[side].del.len() });
+        for (d, t) in out.sent.into_iter().zip(sent_txt.iter()) {
+            let dg = Dg { bytes: d, n_emit: self.s[side].sub.len(), d_emit: self.s[side].del.len() };
+            let hs = t.starts_with("C|") && ["|co:", "|ca", "|ac", "|tk:"].iter().any(|k| t.contains(k));
+            if hs && self.arch[side].len() < 8 { self.arch[side].push(dg.clone()); }
+            self.bag[side].push(dg);
         }
         // C02: while anything is unsent, unacknowledged or mid-handshake the deadline is finite
         let st = state_of(&after);
@@ -619,7 +623,18 @@ impl<E: Endpoint> World<E> {
             7..=8 => { if self.online(side) { self.apply(o, &Label::Flush(side)); } }
             9..=10 => self.apply(o, &Label::Tick(side)),
             11 => { let dt = *r.pick(&[1u64, 1000, 100_000, 499_999, 500_000, 500_001, 999_999, 1_000_000, 1_000_001, 2_500_000]); self.apply(o, &Label::Clock(dt)); }
-            12 => { if self.online(side) && r.chance(1, 4) { let d = payload(r, 1390, true); self.apply(o, &Label::Connless(side, d)); } }
+            12 => {
+                if r.chance(1, 2) {
+                    // a handshake datagram duplicated by the network long ago shows up now
+                    let dir = r.below(2) as usize;
+                    if !self.arch[dir].is_empty() && self.bag[dir].len() < 40 {
+                        let dg = r.pick(&self.arch[dir]).clone();
+                        let at = r.below(self.bag[dir].len() as u64 + 1) as usize;
+                        self.bag[dir].insert(at, dg);
+                        o.lock().unwrap().count("late-handshake-duplicate");
+                    }
+                } else if self.online(side) && r.chance(1, 2) { let d = payload(r, 1390, true); self.apply(o, &Label::Connless(side, d)); }
+            }
             _ => {
                 let dir = r.below(2) as usize;
                 if !self.bag[dir].is_empty() {
